@@ -92,6 +92,8 @@ def cases(shard, nshards, seed, tier):
     # the corpus itself holds one structure in both formats: the deposited files, read with default arguments
     if mine():
         yield {"family": "corpus-format-pair", "file": "tests/4qln.cif", "other": "tests/4qln.pdb", "base_ops": [], "twin": {"kind": "pair"}}
+    if mine():
+        yield {"family": "corpus-format-pair-cli", "file": "tests/4qln.cif", "other": "tests/4qln.pdb", "base_ops": [], "twin": {"kind": "pair-cli"}}
     # NMR ensembles: the other models (same identifiers, other geometry) are annotated first
     for fn in [f for f in gen3d.corpus_files() if f.endswith(("2HY9.cif", "6RS3.cif"))]:
         for tw in ({"kind": "T3", "prefix": "a", "mode": "shift", "seed": f"{fn}:ens3", "gaps": False}, {"kind": "T4"},
@@ -216,8 +218,50 @@ def _relabel_twin(structure, tw):
     return twin, keymap, {c: cn(c) for c in chains}
 
 
+def _pair_cli(case, rec):
+    """The deposited mmCIF and PDB files of one structure through the command-line tool: what it prints and writes
+    (dot-bracket, BPSEQ, CSV with author names) must be the same for both formats."""
+    import contextlib
+    import io
+    import shutil
+    import sys
+    import tempfile
+
+    from rnapolis import annotator
+
+    ok, why = _same_atoms(case["file"], case["other"])
+    if not ok:
+        rec.undecided("twin.cli-outputs-equal", "corpus pair does not hold the same atoms: " + why)
+        return
+    outs = []
+    d = tempfile.mkdtemp(prefix="vmon-c05-")
+    try:
+        for k, fn in enumerate((case["file"], case["other"])):
+            pc, pb = os.path.join(d, f"o{k}.csv"), os.path.join(d, f"o{k}.bpseq")
+            old, buf = sys.argv, io.StringIO()
+            sys.argv = ["annotator", "--csv", pc, "--bpseq", pb, os.path.join(core.REPO, fn)]
+            try:
+                with contextlib.redirect_stdout(buf):
+                    annotator.main()
+                err = None
+            except BaseException as e:
+                err = repr(e)
+            finally:
+                sys.argv = old
+            outs.append({"error": err, "stdout": buf.getvalue(), "csv": open(pc).read() if os.path.exists(pc) else None, "bpseq": open(pb).read() if os.path.exists(pb) else None})
+    finally:
+        shutil.rmtree(d, ignore_errors=True)
+    rec.mark_nontrivial(True)
+    diff = [k for k in ("error", "stdout", "csv", "bpseq") if outs[0][k] != outs[1][k]]
+    rec.check("twin.cli-outputs-equal", not diff and outs[0]["error"] is None,
+              lambda: {"files": [case["file"], case["other"]], "differ": diff, "errors": [o["error"] for o in outs],
+                       "sizes": {k: [len(o[k] or "") for o in outs] for k in ("stdout", "csv", "bpseq")}})
+
+
 def run_case(case, rec):
     tw = case["twin"]
+    if tw["kind"] == "pair-cli":
+        return _pair_cli(case, rec)
     find_gaps = bool(tw.get("gaps", False))
     base = gen3d.load(case["file"], 1 if case.get("pre_models") else None)
     # process history: same identifiers, other geometry, annotated first (results not judged here).
